@@ -25,7 +25,8 @@ var twinURNs = [2][]string{
 	{"tel:+12065551212", "twitterid:54784326227#alice", "mailto:alice@example.com"},
 	{"tel:+12065559876", "twitterid:11122233344#bob", "mailto:bobby@example.org"},
 }
-var curTwin = -1 // -1: the default contact of the other checks
+var curTwin = -1     // -1: the default contact of the other checks
+var twinNoID = false // C19: the contact has no id either (a contact that was never saved)
 
 func twinContact(noname bool) M {
 	c := contactJSON()
@@ -34,6 +35,9 @@ func twinContact(noname bool) M {
 	}
 	if noname {
 		delete(c, "name")
+		if twinNoID {
+			delete(c, "id")
+		}
 	}
 	return c
 }
@@ -160,11 +164,13 @@ func c19Redact(args []string) error {
 			// under a session that stays in memory
 			for _, pp := range [][2]string{{"urns", ""}, {"none", ""}, {"none", "urns"}, {"urns", "none"}} {
 				policy := pp[0]
-				for _, noname := range []bool{false, true} {
-					if noname && i%3 != 0 {
+				for nm := 0; nm < 3; nm++ {
+					noname := nm > 0
+					twinNoID = nm == 2 // nameless AND without an id
+					if (nm == 1 && i%3 != 0) || (nm == 2 && i%3 != 1) {
 						continue
 					}
-					src := fmt.Sprintf("%s#%d/%s-%s/noname=%v", *in, i, policy, pp[1], noname)
+					src := fmt.Sprintf("%s#%d/%s-%s/noname=%v/noid=%v", *in, i, policy, pp[1], noname, twinNoID)
 					var obs [2][]map[string]string
 					var ids [2][]string
 					var eff [2][]string
